@@ -605,9 +605,7 @@ impl<'a> Compiler<'a> {
                 self.current_index.pop_subindex();
             }
             CardBody::Repeat(rep) => {
-                self.current_index.push_subindex(0);
                 self.compile_subexpr(slice::from_ref(&rep.n))?;
-                self.current_index.pop_subindex();
                 let i = &rep.i;
                 let repeat = &rep.body;
                 self.scope_begin();
